@@ -20,6 +20,7 @@ SeqSet(s) == {s[i] : i \in 1..Len(s)}
 (* the realiser round trip: what the library holds / was called with is the case *)
 SrvVars(s) == (IF s.abs THEN {[n |-> p.v, d |-> p.d] : p \in {q \in SeqSet(s.host) \cup SeqSet(s.port) : IsVar(q)}} ELSE {})
               \cup {[n |-> b.v, d |-> s.base[b.i]] : b \in SeqSet(BaseVars(s))}
+              \cup (IF HasSchemeVar(s) THEN {[n |-> s.sch.v, d |-> s.scheme]} ELSE {})
 Realised(line) ==
    /\ "rdoc" \in DOMAIN line /\ "ru" \in DOMAIN line /\ "rm" \in DOMAIN line /\ "built" \in DOMAIN line
    /\ "gh" \in DOMAIN line /\ "lh" \in DOMAIN line /\ Len(line.gh) = Len(line.reqs) /\ Len(line.lh) = Len(line.reqs)
